@@ -84,7 +84,9 @@ Step(c) ==
          /\ UNCHANGED <<glob, dict, analysed, errs, dirty>>
     [] c.ev = "copy" ->         \* json round trip (reload) or pickle / deepcopy (clone) of a pooled object: the same data enter the pool again;
                                 \* the analysis travels with a clone only
-         /\ CheckReal(id, [c EXCEPT !.mode = "step"], [op |-> "var", i |-> 1], <<pool[c.src]>>, <<1>>, c.res, TRUE)
+         \* (a reload went through a text format that stores the samples next to the central value: its fluctuations are exact to eps*|value|,
+         \*  not to eps*|fluctuation| - C11 owns that precision; here the looser "num" tolerance applies to reloads, the strict one to clones)
+         /\ CheckReal(id, [c EXCEPT !.mode = IF c.how = "reload" THEN "num" ELSE "step"], [op |-> "var", i |-> 1], <<pool[c.src]>>, <<1>>, c.res, TRUE)
          /\ Verdict(id, "slot", c.slot = Len(pool) + 1)
          /\ Verdict(id, "analysis travels with a clone, not with a reload", c.analysed = (c.how = "clone" /\ c.src \in analysed))
          /\ pool' = Append(pool, IF c.res.k = "obs" THEN c.res.o ELSE [bad |-> TRUE])
